@@ -290,7 +290,9 @@ func (s *Syncer[H]) doSync(ctx context.Context, fromHead, toHead H) (err error) 
 	s.state.Start = time.Now()
 	s.stateLk.Unlock()
 
+	verifPoint(ctx, "doSync.begin", fromHead.Height(), toHead.Height())
 	err = s.processHeaders(ctx, fromHead, toHead.Height())
+	verifPoint(ctx, "doSync.end", fromHead.Height(), toHead.Height())
 
 	s.stateLk.Lock()
 	s.state.End = time.Now()
